@@ -8,6 +8,7 @@
 //! max_states=<n> max_transitions=<n> file=<replay file>
 
 mod engine;
+mod hset;
 mod nums;
 mod tree;
 mod util;
@@ -86,6 +87,19 @@ fn tree_cmd<A: tree::TreeApi>(a: &Args) -> i32 {
     run(&sut, &|l| sut.parse(l), a)
 }
 
+fn hset_cmd<A: hset::HApi>(a: &Args) -> i32 {
+    let slots = a.num("slots", 4);
+    let sut = hset::HSut::<A> {
+        slots,
+        init_cap: a.num("cap", slots),
+        vals: if a.get("vals").is_some() { a.list("vals") } else { (0..6).collect() },
+        fresh_base: a.num("fresh_base", 100) as i128,
+        fill: a.num("fill", 1) == 1,
+        _p: PhantomData,
+    };
+    run(&sut, &|l| sut.parse(l), a)
+}
+
 fn main() {
     util::install_panic_hook();
     let argv: Vec<String> = std::env::args().collect();
@@ -116,6 +130,13 @@ fn main() {
             "T32i64u64" => tree_cmd::<tree::T32i64u64>(&a),
             "T32logu8" => tree_cmd::<tree::T32logu8>(&a),
             t => panic!("unknown tree type {t}"),
+        },
+        "hset" => match a.get("type").unwrap_or("HU64") {
+            "HU64" => hset_cmd::<hset::HU64>(&a),
+            "HU32" => hset_cmd::<hset::HU32>(&a),
+            "HU8" => hset_cmd::<hset::HU8>(&a),
+            "HWeak" => hset_cmd::<hset::HWeak>(&a),
+            t => panic!("unknown hset type {t}"),
         },
         c => {
             eprintln!("unknown collection {c}");
